@@ -111,7 +111,7 @@ def write_stats_file(path, model, genes, profiles, n_cells, rng,
 
 
 def make_marker_table(rng, model, ref_genes, query_gene_set, klass,
-                      min_markers, root_usable=True):
+                      min_markers, root_usable=True, kmin=1, kmax=10):
     """
     marker table over the *stored* taxonomy.
 
@@ -131,7 +131,7 @@ def make_marker_table(rng, model, ref_genes, query_gene_set, klass,
     def draw_list(kmin, kmax, need_q=1, allow_notq=True):
         k = int(rng.integers(kmin, kmax + 1))
         k = max(k, need_q)
-        nq = min(len(ref_in_q), max(need_q, int(rng.integers(0, k + 1))))
+        nq = min(len(ref_in_q), max(need_q, int(rng.integers(k // 2, k + 1))))
         lst = list(rng.choice(ref_in_q, size=nq, replace=False)) \
             if nq > 0 else []
         rest = k - nq
@@ -146,7 +146,7 @@ def make_marker_table(rng, model, ref_genes, query_gene_set, klass,
         n_children = len(model.children(*(parent if parent else
                                           (None, None))))
         if parent is None:
-            table[key] = draw_list(1, 10, need_q=1 if root_usable else 0,
+            table[key] = draw_list(kmin, kmax, need_q=1 if root_usable else 0,
                                    allow_notq=(klass != 'complete'))
             if not root_usable:
                 table[key] = [g for g in table[key]
@@ -165,9 +165,10 @@ def make_marker_table(rng, model, ref_genes, query_gene_set, klass,
                                        allow_notq=False)
             continue
         if klass == 'complete':
-            table[key] = draw_list(1, 10, need_q=1, allow_notq=False)
+            table[key] = draw_list(kmin, kmax, need_q=1, allow_notq=False)
         elif klass == 'absentq':
-            table[key] = draw_list(2, 10, need_q=1, allow_notq=True)
+            table[key] = draw_list(max(2, kmin), kmax, need_q=1,
+                                   allow_notq=True)
         else:
             r = rng.random()
             if r < 0.2:
@@ -179,7 +180,7 @@ def make_marker_table(rng, model, ref_genes, query_gene_set, klass,
                 k = int(rng.integers(1, max(2, min_markers)))
                 table[key] = draw_list(k, k, need_q=1, allow_notq=True)
             else:
-                table[key] = draw_list(1, 10, need_q=1, allow_notq=True)
+                table[key] = draw_list(kmin, kmax, need_q=1, allow_notq=True)
     if klass == 'stale' and len(ref_not_q) > 0:
         table['nolevel/nonode'] = [str(ref_not_q[0])]
     if rng.random() < 0.3:
@@ -275,7 +276,8 @@ def build_world(spec, work):
     # marker table
     table = make_marker_table(
         rng, model, ref_genes, set(query_genes), s['marker_class'],
-        s['min_markers'], root_usable=s.get('root_usable', True))
+        s['min_markers'], root_usable=s.get('root_usable', True),
+        kmin=s.get('marker_kmin', 1), kmax=s.get('marker_kmax', 10))
     w.marker_table = table
     w.marker_path = work / 'in' / 'markers.json'
     tbl = dict(table)
